@@ -120,4 +120,43 @@ theorem specV_last_perm {m m' : Model} (h : PermOf m m') (hnd : (m.functions.map
     exact ⟨ch, ⟨hch, by simpa only [hq] using hsome⟩, by simp only [hq]⟩
 
 #print axioms specV_last_perm
+
+/-- the general step: if the objectives of the two specifications agree on every environment (same continuation), the
+value of a named state is the same -/
+theorem specQ_perm_of {m m' : Model} (h : PermOf m m') (hnd : (m.functions.map (·.name)).Nodup)
+    (P : Params) (g g' : Groups) (t : Nat) (next next' : Option (Tensor Ext × List (List (Name × Rat))))
+    (huF : ∀ e, uAndF m P g t next e = uAndF m' P g' t next' e)
+    (st st' ch ch' : List (Name × Rat))
+    (hst : st.Perm st') (hch : ch.Perm ch') (hkeys : ((st ++ ch).map (·.1)).Nodup) :
+    specQ m P g t next st ch = specQ m' P g' t next' st' ch' := by
+  have hE : EnvEq (toEnv (st ++ ch)) (toEnv (st' ++ ch')) := envEq_of_perm _ _ (hst.append hch) hkeys
+  rw [specQ_eq_combine, specQ_eq_combine]
+  rw [allTrue_congr_env m P _ _ (hE.append (EnvEq.refl _)), filters_perm h hnd P,
+    uAndF_congr_env m P g t next _ _ hE, huF]
+
+theorem specV_perm_of {m m' : Model} (h : PermOf m m') (hnd : (m.functions.map (·.name)).Nodup)
+    (P : Params) (g g' : Groups) (t : Nat) (next next' : Option (Tensor Ext × List (List (Name × Rat))))
+    (huF : ∀ e, uAndF m P g t next e = uAndF m' P g' t next' e)
+    (st st' : List (Name × Rat)) (hst : st.Perm st')
+    (hkeys : (st.map (·.1) ++ m.choices.map (·.1)).Nodup) :
+    specV m P g t next st = specV m' P g' t next' st' := by
+  have h1 := foldMax_isMaxOver (allChoices m) (fun c => selAdm (specQ m P g t next st c))
+  have h2 := foldMax_isMaxOver (allChoices m') (fun c => selAdm (specQ m' P g' t next' st' c))
+  have hgrids : (m.choices.map fun p => (p.1, p.2.points)).Perm (m'.choices.map fun p => (p.1, p.2.points)) :=
+    h.choices.map _
+  have hk : ∀ ch ∈ allChoices m, ((st ++ ch).map (·.1)).Nodup := by
+    intro ch hch
+    rw [List.map_append, allChoices_keys m ch hch]; exact hkeys
+  show foldMax (((allChoices m).filterMap fun c => selAdm (specQ m P g t next st c)).map Ext.fin)
+    = foldMax (((allChoices m').filterMap fun c => selAdm (specQ m' P g' t next' st' c)).map Ext.fin)
+  refine (h1.transfer ?_ ?_).unique h2
+  · rintro ch ⟨hch, hsome⟩
+    obtain ⟨ch', hch', hperm⟩ := assignments_perm _ _ hgrids.symm ch hch
+    have hq := specQ_perm_of h hnd P g g' t next next' huF st st' ch ch' hst hperm.symm (hk ch hch)
+    exact ⟨ch', ⟨hch', by simpa only [← hq] using hsome⟩, by simp only [← hq]⟩
+  · rintro ch' ⟨hch', hsome⟩
+    obtain ⟨ch, hch, hperm⟩ := assignments_perm _ _ hgrids ch' hch'
+    have hq := specQ_perm_of h hnd P g g' t next next' huF st st' ch ch' hst hperm (hk ch hch)
+    exact ⟨ch, ⟨hch, by simpa only [hq] using hsome⟩, by simp only [hq]⟩
+
 end Lcm
